@@ -404,7 +404,6 @@ func (c *fakeCAS) FindMissing(ctx context.Context, digests digest.Set) (digest.S
 var errPutFailed = status.Error(codes.Unavailable, "verif: CAS rejected the blob")
 
 func (c *fakeCAS) Put(ctx context.Context, d digest.Digest, b buffer.Buffer) error {
-	w := c.w
 	o, _ := ctx.Value(opKey{}).(*opCtl)
 	if o == nil {
 		b.Discard()
@@ -412,18 +411,20 @@ func (c *fakeCAS) Put(ctx context.Context, d digest.Digest, b buffer.Buffer) err
 	}
 	f := fname(o.f)
 	size := d.GetSizeBytes()
-	w.emit(o.id, common.Ev{"ev": "put_begin", "id": o.id, "f": f, "hash": d.GetHashString(), "dsize": int(size)})
+	// (the file is frozen by this upload now: events of the chain that
+	// were held back come out first)
+	o.log(common.Ev{"ev": "put_begin", "id": o.id, "f": f, "hash": d.GetHashString(), "dsize": int(size)}, false)
 	o.wait("A")
 	if o.mode == "fail_before" {
 		b.Discard()
-		w.emit(o.id, common.Ev{"ev": "put_closed", "id": o.id, "f": f})
+		o.log(common.Ev{"ev": "put_closed", "id": o.id, "f": f}, o.next != nil)
 		return errPutFailed
 	}
 	r := b.ToReader()
 	half := size / 2
 	first := make([]byte, half)
 	n1, err1 := io.ReadFull(r, first)
-	w.emit(o.id, common.Ev{"ev": "put_half", "id": o.id, "f": f, "data": ints(first[:n1])})
+	o.log(common.Ev{"ev": "put_half", "id": o.id, "f": f, "data": ints(first[:n1])}, false)
 	var rest []byte
 	if err1 == nil {
 		o.wait("B")
@@ -434,9 +435,11 @@ func (c *fakeCAS) Put(ctx context.Context, d digest.Digest, b buffer.Buffer) err
 	all := append(first[:n1], rest...)
 	fail := o.mode == "fail_after" || err1 != nil
 	// cashash: the digest of the received bytes under the function the caller of the upload asked for
-	w.emit(o.id, common.Ev{"ev": "put_end", "id": o.id, "f": f, "data": ints(all), "cashash": hashOf(o.df, all), "fail": fail})
+	o.log(common.Ev{"ev": "put_end", "id": o.id, "f": f, "data": ints(all), "cashash": hashOf(o.df, all), "fail": fail}, false)
 	r.Close()
-	w.emit(o.id, common.Ev{"ev": "put_closed", "id": o.id, "f": f})
+	// (the frozen view is closed: if another operation follows in this
+	// goroutine nothing is logged before it has frozen the file again)
+	o.log(common.Ev{"ev": "put_closed", "id": o.id, "f": f}, o.next != nil)
 	if err1 != nil {
 		return err1
 	}
@@ -487,10 +490,18 @@ type opCtl struct {
 	gated bool
 	ref   int // fopen id for fread/fclose
 
-	fd         *fdCtl
-	reader     *readerCtl
-	viaFd      bool // path based mutator relying on a descriptor instead of a link
-	pinnedLink bool // path based mutator relying on a directory entry
+	fd     *fdCtl
+	reader *readerCtl
+	// Chains: operations that run back to back in ONE goroutine, with
+	// nothing logged in between, so that a goroutine woken by the first
+	// (a mutator parked behind a frozen view that the first one closes)
+	// cannot run before the next one has frozen the file again.
+	head       *opCtl      // first operation of the chain (nil: this one)
+	next       *opCtl      // operation that follows in the same goroutine
+	from       *opCtl      // fread: the fopen of the same chain whose reader is read
+	deferred   []common.Ev // head only: events held back until the chain has frozen the file again
+	viaFd      bool        // path based mutator relying on a descriptor instead of a link
+	pinnedLink bool        // path based mutator relying on a directory entry
 
 	w      *world
 	gateA  chan struct{}
@@ -509,7 +520,7 @@ func (o *opCtl) wait(stage string) {
 	// Let deferred events of other goroutines proceed: this operation
 	// is now blocked by the harness itself.
 	o.w.mu.Lock()
-	if o.w.current == o.id {
+	if o.w.current == o.turn() {
 		o.w.current = 0
 		o.w.cond.Broadcast()
 	}
@@ -520,6 +531,44 @@ func (o *opCtl) wait(stage string) {
 		<-o.gateB
 	}
 	o.atGate.Store("")
+}
+
+// turn is the id under which the events of this operation take their turn
+// in the log: the id of the head of its chain.
+func (o *opCtl) turn() int {
+	if o.head != nil {
+		return o.head.id
+	}
+	return o.id
+}
+
+func (o *opCtl) headOp() *opCtl {
+	if o.head != nil {
+		return o.head
+	}
+	return o
+}
+
+// log emits an event of the operation, or holds it back while the chain is
+// between two freezes (hold).
+func (o *opCtl) log(ev common.Ev, hold bool) {
+	h := o.headOp()
+	if hold {
+		h.deferred = append(h.deferred, ev)
+		return
+	}
+	o.flush()
+	o.w.emit(o.turn(), ev)
+}
+
+// flush emits the events that were held back, in order.
+func (o *opCtl) flush() {
+	h := o.headOp()
+	evs := h.deferred
+	h.deferred = nil
+	for _, ev := range evs {
+		o.w.emit(o.turn(), ev)
+	}
 }
 
 func (o *opCtl) gate() string {
@@ -712,8 +761,18 @@ func (o *opCtl) run(ev common.Ev) {
 			o.opened = p.Reader
 		}
 	case "fread":
+		var rd filesystem.FileReader
+		if o.from != nil {
+			rd = o.from.opened
+		} else if o.reader != nil {
+			rd = o.reader.r
+		}
+		if rd == nil {
+			ev["st"] = "NOREADER" // the fopen of the chain did not succeed
+			return
+		}
 		buf := make([]byte, o.n)
-		n, err := o.reader.r.ReadAt(buf, int64(o.off))
+		n, err := rd.ReadAt(buf, int64(o.off))
 		if err != nil && err != io.EOF {
 			ev["st"] = errName(err)
 		}
@@ -780,38 +839,105 @@ func (o *opCtl) fillDigest(ev common.Ev, d digest.Digest) {
 // start launches the operation in its own goroutine and waits until
 // everything is durably blocked or finished.
 func (w *world) start(o *opCtl) {
+	w.register(o, nil)
+	w.setCurrent(o.id)
+	go w.runChain(o)
+	w.settle()
+}
+
+// register gives the operation its id and logs its call.
+func (w *world) register(o, head *opCtl) {
 	o.w = w
 	o.id = w.nextID
 	w.nextID++
+	o.head = head
 	if o.gated {
 		o.gateA = make(chan struct{})
 		o.gateB = make(chan struct{})
 	}
 	o.atGate.Store("")
+	if o.from != nil {
+		o.ref = o.from.id
+	}
 	w.ops[o.id] = o
 	w.lastOp = o
 	w.emit(0, w.callEvent(o))
-	w.setCurrent(o.id)
-	go func() {
-		ev := retEvent(o)
-		defer func() {
-			if r := recover(); r != nil {
-				w.emit(o.id, common.Ev{"ev": "panic", "id": o.id, "op": o.op, "f": fname(o.f), "msg": fmt.Sprint(r)})
-				o.st = "PANIC"
-			}
-			o.done.Store(true)
+}
+
+// runChain runs the operation and then, in the same goroutine, the
+// operations chained to it. The return of an operation that is followed by
+// another one is logged only when the chain has ended or has reached the
+// fake CAS (whichever comes first): in between nothing may be logged.
+func (w *world) runChain(first *opCtl) {
+	for o := first; o != nil; o = o.next {
+		w.runOne(o)
+	}
+}
+
+func (w *world) runOne(o *opCtl) {
+	ev := retEvent(o)
+	defer func() {
+		if r := recover(); r != nil {
+			o.log(common.Ev{"ev": "panic", "id": o.id, "op": o.op, "f": fname(o.f), "msg": fmt.Sprint(r)}, false)
+			o.st = "PANIC"
+		}
+		o.done.Store(true)
+		if o.next == nil {
 			w.mu.Lock()
-			if w.current == o.id {
+			if w.current == o.turn() {
 				w.current = 0
 			}
 			w.cond.Broadcast()
 			w.mu.Unlock()
-		}()
-		o.run(ev)
-		o.st = ev["st"].(string)
-		w.emit(o.id, ev)
+		}
 	}()
+	o.run(ev)
+	o.st = ev["st"].(string)
+	o.log(ev, o.next != nil)
+}
+
+// startChain starts operations that run back to back in one goroutine
+// (see opCtl.head). While they run only one processor is used, so that a
+// goroutine the first operation wakes up does not run before the chain
+// blocks or ends; the real code decides everything else.
+func (w *world) startChain(ops ...*opCtl) {
+	for i, o := range ops {
+		var head *opCtl
+		if i > 0 {
+			head = ops[0]
+		}
+		w.register(o, head)
+		if i > 0 {
+			ops[i-1].next = o
+		}
+	}
+	w.setCurrent(ops[0].id)
+	prev := runtime.GOMAXPROCS(1)
+	go w.runChain(ops[0])
 	w.settle()
+	runtime.GOMAXPROCS(prev)
+}
+
+// releaseChain opens the gate an upload is waiting at and lets further
+// operations follow in the upload's goroutine as soon as it has returned.
+func (w *world) releaseChain(u *opCtl, succ ...*opCtl) {
+	stage := u.gate()
+	w.emit(0, common.Ev{"ev": "release", "id": u.id, "stage": stage})
+	last := u
+	for _, o := range succ {
+		w.register(o, u.headOp())
+		last.next = o
+		last = o
+	}
+	w.setCurrent(u.turn())
+	prev := runtime.GOMAXPROCS(1)
+	if stage == "A" {
+		close(u.gateA)
+	} else {
+		close(u.gateB)
+	}
+	w.settle()
+	runtime.GOMAXPROCS(prev)
 }
 
 // settle waits for quiescence, lets deferred events out, and logs the
@@ -924,7 +1050,7 @@ func (w *world) quiesce() {
 func (w *world) release(o *opCtl) {
 	stage := o.gate()
 	w.emit(0, common.Ev{"ev": "release", "id": o.id, "stage": stage})
-	w.setCurrent(o.id)
+	w.setCurrent(o.turn())
 	if stage == "A" {
 		close(o.gateA)
 	} else {
